@@ -342,6 +342,7 @@ class C22(Mode):
             if sd is not None and sd.is_fully_loaded:
                 return 'collection-already-loaded'
         self.probe('cross_thread_use')
+        k0 = simdb.ctx.thread_k.get(name, 0)
         try:
             if how == 0:
                 mine = E.Item.select().first()
@@ -366,6 +367,11 @@ class C22(Mode):
             self.viol('cross-thread-use-wrong-error', 'how=%d' % how,
                       'using an object of another thread raised %s' % exc_str(e))
             return 'raised:' + type(e).__name__
+        if how >= 4 and simdb.ctx.thread_k.get(name, 0) == k0:
+            # no DB-API call was made on this thread's behalf: the owner finished loading the collection between
+            # the test above and the call (the thorough tier pre-empts inside __len__ / Set.load) - the answer
+            # came from the owner's loaded data, which is the known finding of how=1, not a load through this thread
+            return 'collection-already-loaded'
         self.viol('cross-thread-use-accepted', 'how=%d' % how,
                   'thread %s used an object of thread %s session without an error' % (name, owner))
         return 'accepted'
